@@ -103,6 +103,10 @@ func genSettleScenario(r *kernel.Rand, prop string) *kernel.Scenario {
 	}
 	sc.Steps = append(sc.Steps, kernel.St("settle", "first", r.Intn(2), "final", final, "gap_us", []int{0, 10, 500, 20000, 2000000}[r.Intn(5)],
 		"secondary", r.Intn(2), "amt", amt+1))
+	if r.Bool(0.4) {
+		// the ledger's Register gives up when its caller's context is done
+		c["ledger_ctx"] = 1
+	}
 	return sc
 }
 
@@ -112,6 +116,7 @@ func execSettle(t *testing.T, sc *kernel.Scenario, trace bool) *kernel.Result {
 		p := newPair(s)
 		p.w.Ledger.MaxLat = time.Duration(sc.Cfg("ledger_max_us", 2000)) * time.Microsecond
 		p.w.Ledger.EvMax = time.Duration(sc.Cfg("event_max_us", 3000)) * time.Microsecond
+		p.w.Ledger.HonourCtx = sc.Cfg("ledger_ctx", 0) == 1
 		installYields(s)
 		defer removeYields()
 		prop := sc.Property
